@@ -157,8 +157,11 @@ def _distribute_try(computation_graph: ComputationGraph,
         if n.name in var_hosted:
             continue
         footprint = computation_memory(n)
-        # Candidates : hints only with enough capacity
-        candidates = [(agents_capa[a], a) for a in hints.host_with(n.name)
+        # Candidates : agents hosting the computations this one should be
+        # hosted with, if they have enough capacity
+        hinted = [var_hosted[c] for c in hints.host_with(n.name)
+                  if c in var_hosted]
+        candidates = [(agents_capa[a], a) for a in hinted
                       if agents_capa[a] > footprint]
         # If no hinted agents has enough capacity, fall back to all agents
         if not candidates:
